@@ -323,8 +323,8 @@ def replay_failure(group, tree, scratch, res, tier, pid):
     Returns (reproduced: True/False, replay_path)."""
     hname = res["harness"]
     hspec = res_spec(group, hname, tier)
-    os.makedirs(os.path.join(VERIF, "replays", pid), exist_ok=True)
-    rpath = os.path.join(VERIF, "replays", pid, re.sub(r"\W", "_", hname) + ".md")
+    os.makedirs(os.path.join(REPLAY_DIR[0], pid), exist_ok=True)
+    rpath = os.path.join(REPLAY_DIR[0], pid, re.sub(r"\W", "_", hname) + ".md")
     failed = real_failures(res)
     lines = ["# Replay for property %s, harness `%s` (tier %s)" % (pid, hname, tier), ""]
     lines += ["What the harness checks: " + res.get("what", ""), ""]
@@ -493,6 +493,12 @@ def run_check(pid, tier, keep=False, only=None, dev_group=None):
 
     prop = PROPERTIES[pid]
     CURRENT_TIER[0] = tier
+    if only or dev_group or os.path.realpath(REPO) != "/repo" or os.environ.get("VERIF_NO_EVIDENCE"):
+        # development / seeded-change runs: partial or foreign-tree results never overwrite the
+        # committed evidence of /repo
+        alt = os.environ.get("VERIF_ALT_OUT", "/tmp/fv_dev_out")
+        EVIDENCE_DIR[0] = os.path.join(alt, "evidence")
+        REPLAY_DIR[0] = os.path.join(alt, "replays")
     seed = int(os.environ.get("VERIF_SEED", "0") or 0)
     t0 = time.time()
     known = load_known()
@@ -606,8 +612,12 @@ def is_repo_loc(c):
     return ("flussab" in loc or "verif" in loc) and "rustlib" not in loc and ".kani" not in loc
 
 
+EVIDENCE_DIR = [os.path.join(VERIF, "evidence")]
+REPLAY_DIR = [os.path.join(VERIF, "replays")]
+
+
 def write_evidence(pid, prop, tier, seed, results, violations, known_hits, inconclusive, audits, params_used, wall):
-    os.makedirs(os.path.join(VERIF, "evidence"), exist_ok=True)
+    os.makedirs(EVIDENCE_DIR[0], exist_ok=True)
     total_checks = 0
     nontrivial = set()
     samples = []
@@ -704,7 +714,7 @@ def write_evidence(pid, prop, tier, seed, results, violations, known_hits, incon
         },
         "assumptions": prop.get("assumptions", []),
     }
-    with open(os.path.join(VERIF, "evidence", pid + ".json"), "w") as f:
+    with open(os.path.join(EVIDENCE_DIR[0], pid + ".json"), "w") as f:
         json.dump(ev, f, indent=1)
 
 
